@@ -204,7 +204,7 @@ def filter_closed(prog, chk):
         return
     chk.ob(lits == {"class", "data-src-line", "_", "__"}, "A14.passthrough-filter", "OtherElement", oe.where(), "exactly class, data-src-line, _ and __ are withheld when an element's attributes are copied to the output", f"the pass-through filter withholds {sorted(lits)}")
     # class is re-added from the class list
-    ac = oe.call_sites(R.path_endswith("SvgElement::add_classes"))
+    ac = [x for ob_ in [oe] + [x for x in prog.bodies.values() if x.root == oe.id] for x in ob_.call_sites(lambda c: c.path.split("::")[-1] in ("add_classes", "add_class", "insert_all", "extend") and ("SvgElement" in c.path or "ClassList" in c.path))]
     chk.ob(bool(ac), "A14.passthrough-filter", "OtherElement:classes", oe.where(), "the element's classes are re-attached to the copied element", "classes are dropped from the copied element")
 
 
@@ -295,6 +295,10 @@ def consumed(prog, chk):
                         break
             if names is None and "{closure" not in b.path and root not in DYNAMIC_OK:
                 names = _evaluated_keys(prog, b, c.path.split("::")[-1], t.get("line"))
+            if names is None and b.path.split("::")[-1] in REMOVERS and ("SvgElement" in b.path or "AttrMap" in b.path):
+                o_ = R.origin(b, t["args"][1], carriers=dict(R.CARRIERS))
+                if o_[0] == "arg":
+                    continue  # a remover handing its own key parameter on (`without_attr(k)` = clone + `pop_attr(k)`): its callers are the sites
             if names is None:
                 n += 1
                 chk.ob(root in DYNAMIC_OK, "A14.consumed-standard", f"{b.short}:dynamic", where, f"computed-key removal: {DYNAMIC_OK.get(root)}", f"{b.short} removes attributes by a computed key; not in the reviewed list (a standard attribute could be consumed without being re-emitted)", by="table")
